@@ -27,8 +27,15 @@ class FakeDevice:
                     self.eof += 1
                     break
                 if self.mode == "ok":
-                    writer.write(bytes(44))
-                    await writer.drain()
+                    try:
+                        writer.write(bytes(44))
+                        await writer.drain()
+                    except (RuntimeError, OSError):      # this side was half-closed / reset by an earlier faulty step
+                        break
+                elif self.mode == "reset":
+                    # the device resets the connection (RST): the client's transport records the error
+                    writer.transport.abort()
+                    break
                 elif self.mode == "half_close":
                     # the device finishes its side first but keeps reading: it must still see the client's end-of-stream
                     writer.write_eof()
@@ -89,7 +96,7 @@ async def run_history(kind, seq):
             elif a in ("op_ok", "op_raise"):
                 if not model:
                     continue
-                dev.mode = "ok" if a == "op_ok" else ("drop" if n % 2 else "half_close")
+                dev.mode = "ok" if a == "op_ok" else ("drop", "half_close", "reset")[n % 3]
                 try:
                     if a == "op_ok":
                         await (api.control_device(Command.ON) if kind == 1 else api.stop())
@@ -104,13 +111,19 @@ async def run_history(kind, seq):
                     # the device dropped the connection: the statement's alphabet keeps 'connected' until disconnect
                     pass
             elif a == "disconnect":
-                await api.disconnect()
+                try:
+                    await api.disconnect()
+                except Exception as e:   # noqa: BLE001
+                    problems.append(f"step {n} disconnect raised {type(e).__name__}")
                 model = False
             else:
                 trip = {"leave": (None, None, None), "leave_exc": (ValueError, ValueError("body"), None),
                         "leave_oserror": (ConnectionRefusedError, ConnectionRefusedError("other client"), None),
                         "leave_timeout": (asyncio.TimeoutError, asyncio.TimeoutError(), None)}[a]
-                await api.__aexit__(*trip)
+                try:
+                    await api.__aexit__(*trip)
+                except Exception as e:   # noqa: BLE001
+                    problems.append(f"step {n} {a}: leaving the context raised {type(e).__name__}")
                 model = False
             if a in ("disconnect", "leave", "leave_exc", "leave_oserror", "leave_timeout"):
                 flag_unknown = False
@@ -165,7 +178,11 @@ def run_case(c):
         fixed = [["connect_ok", "op_ok", "disconnect", "connect_ok", "disconnect"], ["disconnect", "disconnect"],
                  ["connect_refused", "connect_ok", "leave_exc", "enter", "op_raise", "leave"], ["enter", "leave_exc", "connect_refused"],
                  ["connect_ok", "leave_oserror"], ["enter", "leave_timeout"], ["connect_ok", "connect_refused", "disconnect"],
-                 ["connect_ok", "op_ok", "connect_refused", "leave"]]
+                 ["connect_ok", "op_ok", "connect_refused", "leave"],
+                 # the device resets the connection during an operation (op_raise at step 2 = reset mode), the client tries again, then leaves
+                 # (two further writes on the reset connection are what makes the transport record a BrokenPipeError)
+                 ["connect_ok", "op_ok", "op_raise", "op_raise", "op_raise", "disconnect", "disconnect", "connect_ok", "disconnect"],
+                 ["enter", "op_ok", "op_raise", "op_raise", "op_raise", "leave_exc"]]
         for n in range(i["n"]):
             seq = fixed[n] if n < len(fixed) else [rnd.choice(ALPHABET) for _ in range(rnd.randrange(1, 8))]
             kind = 1 + n % 2
